@@ -1,0 +1,169 @@
+//go:build verif
+
+// Verification hooks for property C20 (transaction pool view consistency).
+// Read-only dumps of the pool's internal indexes plus synchronous wrappers over the
+// unexported entry points; compiled only with `-tags verif`.
+
+package core
+
+import (
+	"math/big"
+	"sort"
+	"time"
+
+	"github.com/youchainhq/go-youchain/common"
+	"github.com/youchainhq/go-youchain/core/types"
+)
+
+// VerifC20List is the canonical content of one txList.
+type VerifC20List struct {
+	Txs     []common.Hash // nonce-ascending (taken from the items map, not from the cache)
+	Nonces  []uint64
+	Strict  bool
+	CostCap *big.Int
+	GasCap  uint64
+	// IndexOK: the nonce heap holds exactly the keys of the items map; CacheOK: a present cache equals the sorted items.
+	IndexOK, CacheOK bool
+}
+
+// VerifC20Dump is a snapshot of every internal view of the pool, taken under the pool lock.
+type VerifC20Dump struct {
+	Pending, Queue map[common.Address]*VerifC20List
+	All            []common.Hash // sorted
+	Priced         []common.Hash // every heap item, stale ones included, sorted (duplicates kept)
+	Stales         int
+	PendingNonces  map[common.Address]uint64 // txNoncer.get for every requested address
+	StateNonces    map[common.Address]uint64
+	StateBalances  map[common.Address]*big.Int
+	Beats          map[common.Address]time.Time
+	Locals         []common.Address
+	GasPrice       *big.Int
+	MaxGas         uint64
+}
+
+func verifC20List(l *txList) *VerifC20List {
+	out := &VerifC20List{Strict: l.strict, CostCap: new(big.Int).Set(l.costcap), GasCap: l.gascap, IndexOK: true, CacheOK: true}
+	nonces := make([]uint64, 0, len(l.txs.items))
+	for n := range l.txs.items {
+		nonces = append(nonces, n)
+	}
+	sort.Slice(nonces, func(i, j int) bool { return nonces[i] < nonces[j] })
+	for _, n := range nonces {
+		tx := l.txs.items[n]
+		out.Txs = append(out.Txs, tx.Hash())
+		out.Nonces = append(out.Nonces, n)
+		if tx.Nonce() != n {
+			out.IndexOK = false
+		}
+	}
+	idx := append([]uint64{}, (*l.txs.index)...)
+	sort.Slice(idx, func(i, j int) bool { return idx[i] < idx[j] })
+	if len(idx) != len(nonces) {
+		out.IndexOK = false
+	} else {
+		for i := range idx {
+			if idx[i] != nonces[i] {
+				out.IndexOK = false
+			}
+		}
+	}
+	if l.txs.cache != nil {
+		if len(l.txs.cache) != len(nonces) {
+			out.CacheOK = false
+		} else {
+			for i, tx := range l.txs.cache {
+				if tx.Hash() != out.Txs[i] {
+					out.CacheOK = false
+				}
+			}
+		}
+	}
+	return out
+}
+
+// VerifC20Dump snapshots the internal views. addrs are the accounts whose virtual and state nonces are read.
+func (pool *TxPool) VerifC20Dump(addrs []common.Address) *VerifC20Dump {
+	pool.mu.Lock()
+	defer pool.mu.Unlock()
+	d := &VerifC20Dump{
+		Pending: map[common.Address]*VerifC20List{}, Queue: map[common.Address]*VerifC20List{},
+		PendingNonces: map[common.Address]uint64{}, StateNonces: map[common.Address]uint64{}, StateBalances: map[common.Address]*big.Int{},
+		Beats: map[common.Address]time.Time{}, GasPrice: new(big.Int).Set(pool.gasPrice), MaxGas: pool.currentMaxGas,
+		Stales: pool.priced.stales,
+	}
+	for a, l := range pool.pending {
+		d.Pending[a] = verifC20List(l)
+	}
+	for a, l := range pool.queue {
+		d.Queue[a] = verifC20List(l)
+	}
+	pool.all.Range(func(h common.Hash, tx *types.Transaction) bool {
+		d.All = append(d.All, h)
+		return true
+	})
+	sortHashes(d.All)
+	for _, tx := range *pool.priced.items {
+		d.Priced = append(d.Priced, tx.Hash())
+	}
+	sortHashes(d.Priced)
+	for _, a := range addrs {
+		d.PendingNonces[a] = pool.pendingNonces.get(a)
+		d.StateNonces[a] = pool.currentState.GetNonce(a)
+		d.StateBalances[a] = new(big.Int).Set(pool.currentState.GetBalance(a))
+	}
+	for a, t := range pool.beats {
+		d.Beats[a] = t
+	}
+	for a := range pool.locals.accounts {
+		d.Locals = append(d.Locals, a)
+	}
+	sort.Slice(d.Locals, func(i, j int) bool { return string(d.Locals[i][:]) < string(d.Locals[j][:]) })
+	return d
+}
+
+func sortHashes(h []common.Hash) {
+	sort.Slice(h, func(i, j int) bool { return string(h[i][:]) < string(h[j][:]) })
+}
+
+// VerifC20ResetSync issues the same reset request the chain-head loop issues and waits for the reorg run to finish.
+func (pool *TxPool) VerifC20ResetSync(oldHead, newHead *types.Header) {
+	<-pool.requestReset(oldHead, newHead)
+}
+
+// VerifC20PromoteSync requests a promotion run for no account (the run still truncates and refreshes nonces) and waits.
+func (pool *TxPool) VerifC20PromoteSync() {
+	<-pool.requestPromoteExecutables(newAccountSet(pool.signer))
+}
+
+// VerifC20RemoveTx calls removeTx under the pool lock.
+func (pool *TxPool) VerifC20RemoveTx(hash common.Hash, outofbound bool) {
+	pool.mu.Lock()
+	defer pool.mu.Unlock()
+	pool.removeTx(hash, outofbound)
+}
+
+// VerifC20Evict is the body of the eviction tick of loop() with the clock made explicit.
+func (pool *TxPool) VerifC20Evict(now time.Time) {
+	pool.mu.Lock()
+	defer pool.mu.Unlock()
+	for addr := range pool.queue {
+		if pool.locals.contains(addr) {
+			continue
+		}
+		if now.Sub(pool.beats[addr]) > pool.config.Lifetime {
+			for _, tx := range pool.queue[addr].Flatten() {
+				pool.removeTx(tx.Hash(), true)
+			}
+		}
+	}
+}
+
+// VerifC20SetEvictionInterval changes the package-level eviction ticker period (read once by loop()); returns the old one.
+func VerifC20SetEvictionInterval(d time.Duration) time.Duration {
+	old := evictionInterval
+	evictionInterval = d
+	return old
+}
+
+// VerifC20Config returns the sanitized configuration the pool runs with.
+func (pool *TxPool) VerifC20Config() TxPoolConfig { return pool.config }
